@@ -59,6 +59,21 @@ def build_all(force=False):
 
 
 if __name__ == "__main__":
-    ok, log = build_all("--force" in sys.argv)
+    if "--setup" in sys.argv:
+        okr, logr = regenerate()
+        print(logr[-500:])
+    ok, log = build_all("--force" in sys.argv or "--setup" in sys.argv)
     print(log[-3000:])
     sys.exit(0 if ok else 1)
+
+
+def regenerate():
+    """Regenerate coq/Gen/*.v from the current /repo working tree (translator)."""
+    try:
+        import py2coq
+    except ImportError:
+        return True, "translator not present"
+    try:
+        return py2coq.regenerate_all()
+    except Exception as e:  # fail closed: a kernel the translator cannot read breaks the proof stage
+        return False, "translator error: %r" % (e,)
